@@ -4,12 +4,16 @@ import PhyVerif.Model.C18c
 import PhyVerif.Spec.C18
 import PhyVerif.Spec.C18c
 import PhyVerif.Lemmas.C18
+import PhyVerif.Model.C18p
+import PhyVerif.Spec.C18p
 import PhyVerif.Lemmas.C18t
+import PhyVerif.Lemmas.C18p
 /-!
 # C18 — JSON, TSV/CSV and parameter-file serialisation round-trips values and types
 Only property theorems + non-vacuity examples; proofs in `Lemmas/C18.lean`.
-(`json`, `csv`, `base64`, number formatting and the Python parser are transport; the parameter-file
-round trip is exercised by the correspondence run only.)
+(`json`, `base64` and float `repr` are transport.  The `csv` module, the text layer, `int()`/`float()`,
+`'%.nf'` and the fragment of Python's parser that parameter files need are modelled in
+`Model/C18c.lean`, `Model/C18p.lean` and tied to the real code by the correspondence run.)
 -/
 namespace PhyVerif.C18
 
@@ -204,7 +208,38 @@ theorem simple_table_roundtrip (isTsv : Bool) (field : String) (data : List (Int
 theorem sortById_perm {α : Type} (l : List (Int × α)) : (sortById l).Perm l :=
   Lemmas.sortById_perm l
 
+/-- Parameter files: `write_python` followed by `read_python` returns the dictionary that was written,
+with the variable names lower-cased — None, booleans, integers, floats (as `float(repr(x))`), strings,
+and lists / tuples (empty, one element `(x,)`, several) of those.  Hypotheses = the domain on which
+the real code round-trips: names are ASCII identifiers that are not keywords and stay distinct when
+lower-cased (real code: `{'Up': 1, 'up': 2}` reads back as `{'up': 2}`); a TOP-LEVEL string contains
+no double quote, backslash or line break (it is written `"%s" % v`, not `repr`: real code raises
+SyntaxError or returns another string); floats are finite (`inf`/`nan` are written as names: NameError).
+Strings inside lists / tuples are arbitrary (quotes, backslashes, tabs, line breaks: `repr` escapes them). -/
+theorem params_roundtrip (d : List (String × PVal)) (hk : ∀ kv ∈ d, ParamKeyOK kv.1)
+    (hnd : (d.map fun kv => kv.1.toLower).Nodup) (hv : ∀ kv ∈ d, PValOK kv.2) :
+    readPython (writePython d) = some (d.map fun kv => (kv.1.toLower, kv.2)) :=
+  Lemmas.params_roundtrip d hk hnd hv
+
 /-! Non-vacuity -/
+-- a parameter file as phy writes it
+example : writePython [("dat_path", .list [.str "a.dat", .str "it's"]), ("n_channels_dat", .scalar (.int 384)),
+      ("dtype", .scalar (.str "int16")), ("sample_rate", .scalar (.float "30000.0")),
+      ("hp_filtered", .scalar (.bool false)), ("Shape", .tuple [.int 1])] =
+    "dat_path = ['a.dat', \"it's\"]\nn_channels_dat = 384\ndtype = \"int16\"\nsample_rate = 30000.0\nhp_filtered = False\nShape = (1,)\n".toList := by
+  decide +kernel
+example : readPython "dat_path = ['a.dat', \"it's\"]\nn_channels_dat = 384\ndtype = \"int16\"\nsample_rate = 30000.0\nhp_filtered = False\nShape = (1,)\n".toList =
+    some [("dat_path", .list [.str "a.dat", .str "it's"]), ("n_channels_dat", .scalar (.int 384)),
+      ("dtype", .scalar (.str "int16")), ("sample_rate", .scalar (.float "30000.0")),
+      ("hp_filtered", .scalar (.bool false)), ("shape", .tuple [.int 1])] := by decide +kernel
+example : PScalarOK (.float "30000.0") ∧ PScalarOK (.float "1e-05") ∧ PScalarOK (.float "-2.5") ∧
+    ¬ PScalarOK (.float "inf") ∧ ParamKeyOK "n_channels_dat" ∧ ¬ ParamKeyOK "class" ∧ ¬ ParamKeyOK "2x" := by
+  refine ⟨⟨by decide, by decide, by decide, by decide +kernel⟩, ⟨by decide, by decide, by decide, by decide +kernel⟩,
+    ⟨by decide, by decide, by decide, by decide +kernel⟩, ?_, by decide +kernel, by decide +kernel, by decide +kernel⟩
+  intro h; exact absurd h.2.2.2 (by decide +kernel)
+-- what the hypotheses exclude: a top-level string with a backslash or a quote is not read back
+example : readPython (writePython [("p", .scalar (.str "C:\\data"))]) = none ∧
+    readPython (writePython [("p", .scalar (.str "say \"hi\""))]) = none := by decide +kernel
 -- a .tsv cluster table: int / float / text with the other delimiter, quotes and a tab; an absent field
 example : (writeTsvFile true (renderW 4)
       [[("cluster_id", .int 0), ("group", .text "good"), ("amp", .float ⟨true, 5404319552844595, -52⟩)],
